@@ -417,6 +417,30 @@ func (p *pkgCtx) classify(id *ast.Ident, mut map[string]bool) (bool, string) {
 	return false, ""
 }
 
+// isSyncType reports whether t (or what it points to / contains as array element) is declared in sync or sync/atomic.
+func isSyncType(t types.Type) bool {
+	for {
+		switch x := t.(type) {
+		case *types.Pointer:
+			t = x.Elem()
+			continue
+		case *types.Array:
+			t = x.Elem()
+			continue
+		case *types.Named:
+			if x.Obj() != nil && x.Obj().Pkg() != nil {
+				pp := x.Obj().Pkg().Path()
+				if pp == "sync" || pp == "sync/atomic" || strings.HasPrefix(pp, "verif/shim/") {
+					return true
+				}
+			}
+			return false
+		default:
+			return false
+		}
+	}
+}
+
 func methodKey(fn *types.Func) string {
 	sig := fn.Type().(*types.Signature)
 	r := sig.Recv().Type()
@@ -498,10 +522,15 @@ func (p *pkgCtx) schedMode(mut map[string]bool) {
 	}
 	// ---- package-level variables
 	pkgVars := map[types.Object]string{}
+	var syncGlobals []string
 	if p.pkg != nil {
 		sc := p.pkg.Scope()
 		for _, name := range sc.Names() {
 			if v, ok := sc.Lookup(name).(*types.Var); ok {
+				if isSyncType(v.Type()) {
+					syncGlobals = append(syncGlobals, name) // modelled by the shim, not as data; registered for reset only
+					continue
+				}
 				pkgVars[v] = name
 				p.rep.Globals = append(p.rep.Globals, name)
 			}
@@ -775,7 +804,7 @@ func (p *pkgCtx) schedMode(mut map[string]bool) {
 			if !ok || sel.X != id {
 				return true
 			}
-			if s := p.info.Selections[sel]; s == nil || s.Kind() != types.FieldVal {
+			if s := p.info.Selections[sel]; s == nil || s.Kind() != types.FieldVal || isSyncType(s.Obj().Type()) {
 				return true
 			}
 			w, why := p.classify(id, mut)
@@ -884,7 +913,7 @@ func (p *pkgCtx) schedMode(mut map[string]bool) {
 		p.insert(f.End(), "\nvar _ = vxsched.Active\nvar _ vxunsafe.Pointer\n")
 		_ = e
 	}
-	if p.pkg != nil && len(p.rep.Globals) > 0 && len(p.files) > 0 {
+	if p.pkg != nil && len(p.rep.Globals)+len(syncGlobals) > 0 && len(p.files) > 0 {
 		var b strings.Builder
 		fmt.Fprintf(&b, "// Code generated by vxinstr. DO NOT EDIT.\n\npackage %s\n\nimport (\n\t\"reflect\"\n\tvxsched \"verif/sched\"\n)\n\nfunc init() {\n\tvxsched.RegisterGlobals([]vxsched.Global{\n", p.pkg.Name())
 		for _, g := range p.rep.Globals {
@@ -893,6 +922,9 @@ func (p *pkgCtx) schedMode(mut map[string]bool) {
 			}
 			_, nf := p.rep.NonFrozen[g]
 			fmt.Fprintf(&b, "\t\t{Name: %q, V: reflect.ValueOf(&%s).Elem(), Mutable: %v},\n", p.pkg.Name()+"."+g, g, nf)
+		}
+		for _, g := range syncGlobals {
+			fmt.Fprintf(&b, "\t\t{Name: %q, V: reflect.ValueOf(&%s).Elem(), Sync: true},\n", p.pkg.Name()+"."+g, g)
 		}
 		fmt.Fprintf(&b, "\t})\n}\n")
 		dir := filepath.Dir(p.edits[p.files[0]].path)
